@@ -75,13 +75,14 @@ def gen_cube(rng, big=False, uncovered=False):
 
 
 def add_cube_forms(rng, case):
-    """Form of the cube-level arguments (content unchanged): explicit extents as NumPy integer scalars (of a dtype that
-    also holds extent + 1: the working extent is computed in the scalar's dtype, FORM-1b), N passed explicitly as a Python
-    int or a NumPy scalar.  interacting_shape stays a tuple: a list raises TypeError (tuple + list) and an ndarray
-    ValueError in the unchanged code - unsupported forms, not generated."""
-    f = {"N": None, "shape_entries": None}
-    if case["shape"] is not None and rng.random() < 0.4:
-        f["shape_entries"] = [cubelib.scalar_tag(rng, int(e), p=0.7, headroom=1) for e in case["shape"]]
+    """Form of the cube-level arguments (content unchanged): explicit extents as NumPy integer scalars of ANY dtype that
+    holds them, also AT the dtype's maximum (the working extent e + 1 wrapped there until fix F27); interacting_shape as
+    tuple, list or ndarray (normalised by the constructor since F27); N passed explicitly as a Python int or NumPy scalar."""
+    f = {"N": None, "shape_entries": None, "shape_container": "tuple"}
+    if case["shape"] is not None:
+        if rng.random() < 0.4:
+            f["shape_entries"] = [cubelib.scalar_tag(rng, int(e), p=0.7, headroom=0) for e in case["shape"]]
+        f["shape_container"] = rng.choice(["tuple", "tuple", "tuple", "list", "ndarray"])
     if rng.random() < 0.3:
         f["N"] = cubelib.scalar_tag(rng, case["N"], p=0.7, headroom=0)
     case["forms"] = f
@@ -95,14 +96,18 @@ def case_form_tags(case):
         out.append("shape=inferred")
     else:
         out.extend("extent=" + t for t in (f.get("shape_entries") or ["python-int"] * len(case["shape"])))
+        out.append("shape=" + (f.get("shape_container") or "tuple"))
     return out
 
 
 def gen_dtype_max_cube(rng):
     """Aimed at F24: a dimension whose largest value is the maximum of an 8-/16-bit dtype (255, 127, 65535, 32767) and is
     handed over as a NumPy scalar OF THAT DTYPE - as the common (`common=arr.max()`) or as a dict-key coordinate - with the
-    shape mostly inferred.  (32-/64-bit maxima would need a 2^31-cell region and are not generated.)"""
+    shape inferred (F24); or the largest value one below it and the explicit extent a NumPy scalar AT the maximum (F27).  (32-/64-bit maxima would need a 2^31-cell region and are not generated.)"""
     top, dt = rng.choice(sorted(cubelib.DTYPE_MAXES.items()))
+    explicit = rng.random() < 0.4       # then the largest value is max-1 and the explicit extent is AT the maximum (F27)
+    if explicit:
+        top -= 1
     N = rng.randint(1, 8)
     pool = [0, 1, top - 1, top]
     col = [rng.choice(pool) for _ in range(N)]
@@ -126,9 +131,13 @@ def gen_dtype_max_cube(rng):
         col2 = [rng.randrange(e2) for _ in range(N)]
         specs.insert(rng.randrange(2), cubelib.make_spec(rng, col2, cubelib.pick_common(rng, col2, range(e2), rng.choice(["frequent", "rare", "absent"]))))
     case = {"dims": specs, "shape": None, "format": list(rng.choice(FORMATS)), "N": N}
-    if rng.random() < 0.2:
+    if explicit:
         case["shape"] = [max(s["arr"] + [s["common"]]) + 1 for s in specs]
-    return add_cube_forms(rng, case)
+    add_cube_forms(rng, case)
+    if case["shape"] is not None and rng.random() < 0.7:
+        case["forms"]["shape_entries"] = [("numpy." + cubelib.DTYPE_MAXES[e]) if e in cubelib.DTYPE_MAXES else cubelib.scalar_tag(rng, e, p=0.7)
+                                          for e in case["shape"]]
+    return case
 
 
 def gen_lopsided_cube(rng):
@@ -174,6 +183,10 @@ def run_cube(case):
     if case["shape"] is not None:
         tags = cf.get("shape_entries") or [None] * len(case["shape"])
         shape = tuple(cubelib.apply_scalar(int(e), t) for e, t in zip(case["shape"], tags))
+        if cf.get("shape_container") == "list":
+            shape = list(shape)
+        elif cf.get("shape_container") == "ndarray":
+            shape = numpy.array([int(e) for e in case["shape"]], dtype=numpy.int64)
     out = {"dims": dims, "raised": None}
     try:
         cube = ccube(dims, interacting_shape=shape)
@@ -335,9 +348,9 @@ def run(ctx):
                 "(from_array from every integer dtype holding the values in C / Fortran / transposed / strided / negative-stride / "
                 "read-only layouts or nested lists; constructor with contiguous, column-view or read-only uint32 row ids; common, explicit "
                 "extents and N as Python ints or NumPy integer scalars, dict-key coordinates as NumPy scalars; commons and coordinates also AT "
-                "the maximum of their 8-/16-bit dtype with inferred shape (dtype-max stream, finding F24); explicit NumPy-scalar extents "
-                "only of dtypes that hold extent+1 (working extent computed in the scalar's dtype, notes FORM-1b); interacting_shape as list/ndarray raises TypeError/ValueError in "
-                "the unchanged code and is not generated); a case = one sub-cube block, "
+                "the maximum of their 8-/16-bit dtype with inferred shape (dtype-max stream, finding F24); explicit extents as NumPy scalars of "
+                "any dtype holding them, also at the dtype maximum, interacting_shape as tuple / list / ndarray (finding F27); 32-/64-bit "
+                "maxima would need 2^31-cell regions and are not generated); a case = one sub-cube block, "
                 "distinct per literal, non-trivial when N > 0 and it has at least one dimension")
     ctx.trusted = list(core.STD_TRUSTED) + [
         "SetOps: set_intersect_merge_np(base, rowids) = inter_spec base rowids on increasing inputs (property C08)",
